@@ -14,9 +14,29 @@ Theorem C01_order : forall c ls s,
   run (step c) (init c) ls = Some s -> c01_order c (obs_trace obs ls) = true.
 Proof. exact sup_c01_order. Qed.
 
-(* No Stop() is issued before shutdown starts: every StopCall is preceded by a trigger event
-   (unless the start-up deadline, which leaves no event, can fire). *)
+(* No Stop() is issued before shutdown starts.  A shutdown starts only with a cause; `is_trigger c` are the
+   events that are one: a Shutdown() call, an INT/TERM SendSignal call, cancellation of the parent context, a
+   trigger offered by a runnable that IS a ShutdownSender, a runnable's Run returning a non-cancellation error
+   (no other API call, no trigger of a non-ShutdownSender).  The only cause without an event is the start-up
+   deadline firing: in the model it sets the ghost flag su_fired (C01_su_fired says what the flag means).
+   MODEL FORM - for EVERY configuration (also when the start-up deadline can fire: realistic configurations),
+   every schedule on which the deadline has not fired: every StopCall is preceded by a trigger event. *)
 Theorem C01_not_before : forall c ls s,
+  run (step c) (init c) ls = Some s -> su_fired (aux s) = false ->
+  c01_not_before_strict c (obs_trace obs ls) = true.
+Proof. exact sup_c01_not_before_model. Qed.
+
+(* the flag: set only by the step LGateTimeout (by definition of step), never cleared; when it is set the
+   deadline can fire in this configuration and Run() has fixed the start-up timeout error as its result *)
+Theorem C01_su_fired : forall c s,
+  reachable_sup c s -> su_fired (aux s) = true ->
+  startup_may_fire c = true /\ main_res (main s) = Some ResTimeout.
+Proof. exact InvSu_reachable. Qed.
+
+(* TRACE FORM (the monitor evaluated on the implementation's traces, which have no ghost flag): every StopCall
+   is preceded by a trigger event, or Run() returned the start-up timeout error, or it has not returned yet and
+   the deadline can fire. *)
+Theorem C01_not_before_trace : forall c ls s,
   run (step c) (init c) ls = Some s -> c01_not_before c (obs_trace obs ls) = true.
 Proof. exact sup_c01_not_before. Qed.
 
@@ -60,6 +80,8 @@ Print Assumptions C01_cancel_after.
 Print Assumptions C01_started_prefix.
 Print Assumptions C01_stop_range.
 Print Assumptions C01_not_before.
+Print Assumptions C01_su_fired.
+Print Assumptions C01_not_before_trace.
 
 Definition c01_cfg : config :=
   {| specs := [dflt_spec; dflt_spec]; startup_may_fire := false; shutdown_may_fire := false |}.
@@ -70,6 +92,36 @@ Example C01_ex_schedule :
   exists s, run (step c01_cfg) (init c01_cfg) c01_sched = Some s /\
             stop_evs (obs_trace obs c01_sched) = canon_stops 2.
 Proof. eexists. split; vm_compute; reflexivity. Qed.
+(* C01_not_before is not vacuous for realistic configurations: here the start-up deadline CAN fire
+   (startup_may_fire = true), it has not, and Stops were issued - after the SIGTERM call *)
+Definition c01_su_cfg : config :=
+  {| specs := [ {| stateable := true; reloadable := false; rsender := false; ssender := false;
+                   stop_style := StopNonBlocking; run_exit := ExitOnSignal; held_sub := false |}; dflt_spec];
+     startup_may_fire := true; shutdown_may_fire := true |}.
+Definition c01_su_sched : list label :=
+  [LRunEnter; LRunEntered; LLaunch 0; LRunStore 0; LRunCall 0; LPoll 0 true; LGateDecide 0; LLaunch 1; LRunCall 1;
+   LCall 1 (OpSignal SigTerm); LSigPut 1; LReapSig; LMainShutdown; LStopCall 1; LStopRet 1; LStopCall 0].
+Example C01_ex_not_before_hypotheses :
+  exists s, run (step c01_su_cfg) (init c01_su_cfg) c01_su_sched = Some s /\ su_fired (aux s) = false /\
+            startup_may_fire c01_su_cfg = true /\ stop_evs (obs_trace obs c01_su_sched) = [EStopCall 1; EStopRet 1; EStopCall 0].
+Proof. eexists. split; [vm_compute; reflexivity|]. repeat split; vm_compute; reflexivity. Qed.
+(* the genuine excuse: the deadline fires at runnable 0's gate, Stop is called with no trigger event before *)
+Definition c01_su_fire : list label :=
+  [LRunEnter; LRunEntered; LLaunch 0; LRunStore 0; LRunCall 0; LPoll 0 false; LGateTimeout 0; LMainShutdown; LStopCall 0].
+Example C01_ex_startup_timeout_path :
+  exists s, run (step c01_su_cfg) (init c01_su_cfg) c01_su_fire = Some s /\ su_fired (aux s) = true /\
+            c01_not_before_strict c01_su_cfg (obs_trace obs c01_su_fire) = false /\
+            c01_not_before c01_su_cfg (obs_trace obs c01_su_fire) = true.
+Proof. eexists. split; [vm_compute; reflexivity|]. repeat split; vm_compute; reflexivity. Qed.
+(* the monitor is not blinded by startup_may_fire = true: a Stop without a trigger in a trace whose Run()
+   returned nil is rejected; so are "triggers" that are none *)
+Example C01_ex_not_before_rejects :
+  c01_not_before c01_su_cfg [ERunEnter; ERunCall 0; EStopCall 0; EStopRet 0; ERunReturn ResNil] = false /\
+  c01_not_before c01_su_cfg [ERunEnter; ERunCall 0; ETrigS 1; ECall 1 OpReloadAll; ECall 2 (OpSignal SigHup);
+                             ERunRet 0 None; EStopCall 0; EStopRet 0; ERunReturn ResNil] = false /\
+  c01_not_before c01_su_cfg [ERunEnter; ERunCall 0; ECall 1 OpShutdown; EStopCall 0; EStopRet 0; ERunReturn ResNil] = true.
+Proof. repeat split; vm_compute; reflexivity. Qed.
+
 (* Shutdown() before Run(): both registered runnables are stopped, in reverse order, once each, although no
    Run is ever invoked; a later Run() starts nothing and returns nil *)
 Definition c01_first_sched : list label :=
